@@ -4,10 +4,42 @@ import (
 	"encoding/json"
 	"fmt"
 	"os"
+	"os/exec"
 	"path/filepath"
 
 	"verif/rewrite"
 )
+
+// prepareWsimC builds wuffs-c from the working tree and generates the base
+// library's C once; every run then transpiles and compiles only its own package.
+func prepareWsimC(c *prepCtx) error {
+	bin := filepath.Join(c.Scratch, "tools")
+	os.MkdirAll(bin, 0o755)
+	cmd := exec.Command("go", "build", "-o", filepath.Join(bin, "wuffs-c"), "github.com/google/wuffs/cmd/wuffs-c")
+	cmd.Dir = verifRoot
+	cmd.Env = goEnv()
+	if out, err := cmd.CombinedOutput(); err != nil {
+		return fmt.Errorf("the working tree's wuffs-c does not build (no verdict): %v\n%s", err, out)
+	}
+	base, err := exec.Command(filepath.Join(bin, "wuffs-c"), "gen", "-package_name", "base").Output()
+	if err != nil {
+		return fmt.Errorf("`wuffs-c gen -package_name base` failed (no verdict): %v", err)
+	}
+	basePath := filepath.Join(c.Scratch, "wuffs-base.c")
+	if err := os.WriteFile(basePath, base, 0o644); err != nil {
+		return err
+	}
+	if _, err := exec.LookPath("clang-14"); err != nil {
+		return fmt.Errorf("clang-14 not found")
+	}
+	runs := filepath.Join(c.Scratch, "runs")
+	os.MkdirAll(runs, 0o755)
+	c.Extra["wuffs_c"] = filepath.Join(bin, "wuffs-c")
+	c.Extra["base_c"] = basePath
+	c.Extra["scratch"] = runs
+	c.Notes = append(c.Notes, fmt.Sprintf("wuffs-c built from the working tree; base library C generated once (%d bytes)", len(base)))
+	return nil
+}
 
 // prepareWsimObserver injects the fact observer into the working tree's
 // lang/check (overlay only; /repo is not touched) and builds the engine with
@@ -51,5 +83,16 @@ func init() {
 		Real:        []string{"lang/token, lang/parse, lang/check of the working tree: the acceptance decision, the fact list at every statement (facts from if/while conditions, assignments, asserts, axioms; fact dropping and rewriting on =, +=, -=, impure calls; if/else reconciliation; loop pre/inv/post)"},
 		Stub:        []string{"the run-time: a tree-walking interpreter over the checked AST in ideal integers (engines/wsim/interp.go)", "the observation point: one call inserted into bcheckBlock through go build -overlay"},
 		Assumptions: []string{"the interpreter shares the front end with the compiler (common-mode)", "coroutines and I/O built-ins are outside the interpreter's subset, so fact invalidation at suspension points is not reached by this check (std/ under engine C reaches the consequences only)"},
+	})
+	register(&propDef{
+		ID: "C04", Engine: "wsim", Pkg: "./engines/wsim", Level: "exploration",
+		Runs:        map[string]int{"quick": 1200, "thorough": 120000},
+		MaxSec:      map[string]float64{"quick": 900, "thorough": 3600},
+		Prepare:     prepareWsimC,
+		Rule:        "one run = one Wuffs program (operator-stress generator over u8/u16/u32/u64 with modular, saturating, bitwise, shift, division, conversion, min/max/low_bits/high_bits, compound assignment on narrow types, private pure and impure calls, labelled break/continue out of nested loops; the C01 and C02 generators; hand corpus) accepted by the working tree's checker, plus one seeded history of public calls on a persistent receiver. The history is executed by the reference interpreter and by the C that the working tree's wuffs-c generates from the same source, compiled by clang-14 (-O0 with ASan+UBSan, or -O2, drawn) and driven by a generated main() performing exactly the recorded calls; compared: every return value, then every scalar field and array element through appended getters",
+		Real:        []string{"lang/* front end and internal/cgen + cmd/wuffs-c of the working tree (the C is generated at check time), internal/cgen/base (the base library C is generated at check time), clang-14"},
+		Stub:        []string{"the source-level semantics: a tree-walking interpreter in ideal integers (engines/wsim/interp.go)"},
+		Assumptions: []string{"the interpreter is the reference for 'what the source means' (written from the language documentation; shares the front end with the compiler)", "programs for which wuffs-c fails or whose C does not compile give no comparison (counted in the evidence, not reported)", "coroutines, I/O, iterate, choose, SIMD and statuses are outside the interpreter's subset"},
+		Shrink:      60,
 	})
 }
